@@ -7,6 +7,7 @@ follows the prefix and, at the frontier, asks the solver which sides are feasibl
 and schedules the alternative.  Because nothing is cloned, library models can be
 written in direct style and may call back into MIR bodies (closures).
 """
+import os as _os
 import re
 import time
 import z3
@@ -603,6 +604,8 @@ class Program:
         self.impl_cache = {}
         self.resolve_cache = {}
         self.assoc_consts = {}
+        self._cur_crate = None
+        self._enum_cache = {}
 
     def load_crate(self, crate, mir_path, crate_dir):
         fns, allocs = parse_file(mir_path, crate)
@@ -709,12 +712,22 @@ class Program:
 
     # ---- callee resolution -------------------------------------------------
     def resolve(self, callee, cur_fn=None):
-        key = callee
+        crate = cur_fn.crate if cur_fn is not None else None
+        key = (crate, callee)
         if key in self.resolve_cache:
             return self.resolve_cache[key]
+        self._cur_crate = crate
         r = self._resolve(callee, cur_fn)
         self.resolve_cache[key] = r
         return r
+
+    def _prefer(self, cands):
+        """prefer bodies of the calling crate when a name exists in several crates"""
+        if len(cands) > 1 and self._cur_crate is not None:
+            own = [f for f in cands if f.crate == self._cur_crate]
+            if own:
+                return own
+        return cands
 
     def _resolve(self, callee, cur_fn):
         c = callee.strip()
@@ -739,7 +752,7 @@ class Program:
                 ty = inner[:idx]
                 trait = inner[idx + 4:]
                 tl = last_ident(trait)
-                cands = [f for (t, f) in self.methods.get((last_ident(ty), method), []) if t == tl]
+                cands = self._prefer([f for (t, f) in self.methods.get((last_ident(ty), method), []) if t == tl])
                 if len(cands) == 1:
                     return cands[0]
                 if len(cands) > 1:
@@ -750,7 +763,7 @@ class Program:
                 return None
             else:
                 # <Type>::method  (inherent on a complex type)
-                cands = [f for (t, f) in self.methods.get((last_ident(inner), method), []) if t is None]
+                cands = self._prefer([f for (t, f) in self.methods.get((last_ident(inner), method), []) if t is None])
                 if len(cands) == 1:
                     return cands[0]
                 return None
@@ -763,6 +776,7 @@ class Program:
                 cands = [f for (t, f) in self.methods.get((last_ident(ty), method), []) if t == tl]
             else:
                 cands = [f for (t, f) in self.methods.get((last_ident(inner), method), []) if t is None]
+            cands = self._prefer(cands)
             if len(cands) >= 1:
                 return cands[0]
             return None
@@ -771,13 +785,13 @@ class Program:
         if len(segs) >= 2:
             ty, method = segs[-2], segs[-1]
             cands = self.methods.get((ty, method), [])
-            inh = [f for (t, f) in cands if t is None]
+            inh = self._prefer([f for (t, f) in cands if t is None])
             if len(inh) == 1:
                 return inh[0]
             if len(inh) == 0 and len(cands) == 1:
                 return cands[0][1]
         # free function / constructor
-        cands = self.free.get(segs[-1], [])
+        cands = self._prefer(self.free.get(segs[-1], []))
         if len(cands) == 1:
             return cands[0]
         if len(cands) > 1:
@@ -840,8 +854,23 @@ class Program:
                 return d
         return None
 
-    def is_enum_variant_path(self, name):
+    def crate_of_path(self, path):
+        for cr, d in self.crates.items():
+            if path.startswith(d.rstrip("/") + "/"):
+                return cr
+        return None
+
+    def is_enum_variant_path(self, name, cur_crate=None):
         """name like a::b::Type::Variant (generics stripped) -> (Type, Variant, discr) or None"""
+        key = (name, cur_crate)
+        r = self._enum_cache.get(key, 0)
+        if r != 0:
+            return r
+        r = self._is_enum_variant_path(name, cur_crate)
+        self._enum_cache[key] = r
+        return r
+
+    def _is_enum_variant_path(self, name, cur_crate):
         segs = strip_generics(name).split("::")
         if len(segs) < 2:
             return None
@@ -854,6 +883,11 @@ class Program:
         found = [e for e in decls if e.discr_of(var) is not None or any(n == var for n, _ in e.variants)]
         if found:
             ds = set(e.discr_of(var) for e in found)
+            if len(ds) == 1:
+                return ty, var, ds.pop()
+            want = segs[0] if segs[0] in self.crates else cur_crate
+            own = [e for e in found if self.crate_of_path(e.path) == want]
+            ds = set(e.discr_of(var) for e in own)
             if len(ds) == 1:
                 return ty, var, ds.pop()
             raise Inconclusive("ambiguous enum %s::%s" % (ty, var))
@@ -882,7 +916,7 @@ class Ctx:
         self.trace = []
         self.alts = []
         self.pc = []
-        self.solver = z3.Solver()
+        self.solver = z3.SolverFor(_os.environ.get("MIRSYM_LOGIC", "QF_ABV"))
         self.solver.set("timeout", engine.query_timeout_ms)
         self.fresh_n = 0
         self.events = []       # side records (allocation requests, notes)
@@ -894,6 +928,15 @@ class Ctx:
             return
         self.pc.append(cond)
         self.solver.add(bz3(cond))
+
+    def assume(self, cond):
+        """add a constraint chosen by a model; the path ends as infeasible if it contradicts the path so far"""
+        cond = to_bool(cond) if not isinstance(cond, bool) else cond
+        if cond is True:
+            return
+        if cond is False or not self.check(cond):
+            raise Infeasible()
+        self.add(cond)
 
     def check(self, cond):
         st = self.engine.stats
@@ -925,8 +968,14 @@ class Ctx:
         i = len(self.trace)
         if i < len(self.prefix):
             d = self.prefix[i]
+            if not isinstance(d, bool):
+                raise Inconclusive("replay divergence in branch")
             self.trace.append(d)
             self.add(cond if d else z3.Not(cond))
+            if i == len(self.prefix) - 1 and self.engine.paranoid:
+                # end of the replayed prefix: the path condition must still be satisfiable
+                if not self.check(True):
+                    raise Inconclusive("replay divergence: prefix became infeasible")
             return d
         t = self.check(cond)
         f = self.check(z3.Not(cond))
@@ -956,10 +1005,20 @@ class Ctx:
             return iv.v
         n = 0
         while True:
-            m = self.model()
-            if m is None:
-                raise Infeasible()
-            val = m.eval(iv.z3(), model_completion=True).as_long()
+            i = len(self.trace)
+            if i < len(self.prefix):
+                # replay: the value tried at this point is part of the recorded trace
+                ent = self.prefix[i]
+                if not (isinstance(ent, tuple) and ent[0] == "v"):
+                    raise Inconclusive("replay divergence in concretize (%s)" % what)
+                val = ent[1]
+                self.trace.append(ent)
+            else:
+                m = self.model()
+                if m is None:
+                    raise Infeasible()
+                val = m.eval(iv.z3(), model_completion=True).as_long()
+                self.trace.append(("v", val))
             if self.branch(iv.z3() == z3.BitVecVal(val, iv.bits)):
                 return norm(val, iv.bits, iv.signed)
             n += 1
@@ -989,6 +1048,7 @@ class PathResult:
         self.err = err
         self.pc = list(ctx.pc) if ctx else []
         self.trace = list(ctx.trace) if ctx else []
+        self.model = None
         self.events = list(ctx.events) if ctx else []
         self.ctx = ctx
 
@@ -1025,17 +1085,25 @@ class Engine:
         self.stats = Stats()
         self.overflow_checks = overflow_checks
         self.const_cache = {}
+        self.norm_cache = {}
         self.trace_calls = False
+        self.want_models = True
+        self.paranoid = True
 
     # ------------------------------------------------------------------
-    def explore(self, thunk, max_paths=None):
-        """thunk(ctx) -> value.  Returns list[PathResult]."""
+    def explore(self, thunk, max_paths=None, on_result=None):
+        """thunk(ctx) -> value.  Returns list[PathResult] (or streams them to on_result)."""
         results = []
+        n_done = 0
         work = [[]]
         limit = max_paths or self.max_paths
         while work:
-            if len(results) >= limit:
-                results.append(PathResult("bound", err="path limit %d reached" % limit))
+            if len(results) + n_done >= limit:
+                r = PathResult("bound", err=("path limit %d reached" % limit, None))
+                if on_result is not None:
+                    on_result(r)
+                else:
+                    results.append(r)
                 break
             prefix = work.pop()
             ctx = Ctx(self, prefix)
@@ -1054,7 +1122,17 @@ class Engine:
                 r = PathResult("infeasible", None, ctx)
             work.extend(ctx.alts)
             self.stats.paths += 1
-            results.append(r)
+            if r.kind != "infeasible" and self.want_models:
+                try:
+                    r.model = ctx.model()
+                except Exception:
+                    r.model = None
+            ctx.solver = None          # free the solver; the path condition list is kept
+            if on_result is not None:
+                on_result(r)
+                n_done += 1
+            else:
+                results.append(r)
         return results
 
     # ------------------------------------------------------------------
@@ -1108,7 +1186,7 @@ class Engine:
         # typed constant  `const <expr>: Type` handled above; named constants:
         name = strip_generics(t)
         # enum unit variants printed as constants
-        ev = self.program.is_enum_variant_path(name)
+        ev = self.program.is_enum_variant_path(name, frame.fn.crate if frame is not None else None)
         if ev:
             return EnumV(ev[0], ev[1], ev[2], [])
         segs = name.split("::")
@@ -1122,7 +1200,15 @@ class Engine:
             if len(ac) == 1:
                 return self.eval_const_body(ac[0])
         # named const item in the repo (suffix match)
-        cands = [f for (cr, n), f in self.program.fns.items() if f.kind == "const" and (n == name or n.endswith("::" + segs[-1]) and n.split("::")[-1] == segs[-1])]
+        cands = [f for (cr, n), f in self.program.fns.items() if f.kind == "const" and (n == name or n == segs[-1] or n.endswith("::" + segs[-1]))]
+        if len(cands) > 1 and len(segs) > 1 and segs[0] in self.program.crates:
+            own = [f for f in cands if f.crate == segs[0]]
+            if own:
+                cands = own
+        elif len(cands) > 1 and frame is not None:
+            own = [f for f in cands if f.crate == frame.fn.crate]
+            if own:
+                cands = own
         exact = [f for f in cands if f.name == name or name.endswith("::" + f.name) or f.name.endswith("::" + name)]
         if len(exact) == 1:
             return self.eval_const_body(exact[0])
@@ -1428,6 +1514,8 @@ class Engine:
             it = int_type(ty)
             if it is not None and isinstance(v, Int) and v.bits == it[0]:
                 return Int(v.v, it[0], it[1])
+            if isinstance(v, Ref) and ("*const" in ty or "*mut" in ty or ty.startswith("&") or "NonNull" in ty):
+                return v
             raise Untranslatable("transmute to %s" % ty, (frame.fn.name,))
         raise Untranslatable("cast kind %s" % kind, (frame.fn.name,))
 
@@ -1449,7 +1537,7 @@ class Engine:
             vals = [Cell(self.eval_operand(frame, o)) for (_, o) in rv.b]
         else:
             vals = [Cell(self.eval_operand(frame, o)) for o in rv.b]
-        ev = self.program.is_enum_variant_path(name)
+        ev = self.program.is_enum_variant_path(name, frame.fn.crate)
         if ev:
             return EnumV(ev[0], ev[1], ev[2], vals)
         ty = strip_generics(name).split("::")[-1]
@@ -1584,6 +1672,16 @@ class Engine:
     # ------------------------------------------------------------------
     # calls
     # ------------------------------------------------------------------
+    _re_stdpath = re.compile(r"\b(?:std|core|alloc)::(?:[a-z_0-9]+::)+(?=[A-Z])")
+
+    def normalize(self, callee):
+        c = self.norm_cache.get(callee)
+        if c is None:
+            c = callee.replace("std::io::", "io::")
+            c = self._re_stdpath.sub("", c)
+            self.norm_cache[callee] = c
+        return c
+
     def find_model(self, callee):
         m = self.model_cache.get(callee)
         if m is not None or callee in self.model_cache:
@@ -1604,6 +1702,7 @@ class Engine:
         return self.call_named(t.callee, args, frame)
 
     def call_named(self, callee, args, frame=None):
+        callee = self.normalize(callee)
         model = self.find_model(callee)
         if model is not None:
             self.stats.calls_modelled[callee] = self.stats.calls_modelled.get(callee, 0) + 1
